@@ -1,6 +1,7 @@
 //! Per-property monitors. The table-driven properties use the generic sweep; the others
 //! have a module of their own.
 
+pub mod catalogue;
 pub mod poly;
 pub mod quire;
 pub mod rngmon;
